@@ -62,15 +62,19 @@ theorem ArrAt.instrsAt {a : Array Instr} {P : Prog F} : ∀ {l : List Instr} {pc
 
 /-! ### one root -/
 
+/-- the state after the main line of the root (nothing is emitted for a nested id without a body) -/
+def bodyState (bodies : List (Nat × Expr F)) (r : Root F) (s1 : LState F) : LState F :=
+  match rootBody bodies r with
+  | some b => emit r.patch r.containing b s1
+  | none => s1
+
 theorem layoutRoot_eq (bodies : List (Nat × Expr F)) (r : Root F) (s : LState F) :
     layoutRoot bodies r s =
       let s1 : LState F := { s with jumps := s.jumps.setIfInBounds r.patch s.instrs.size, done := r :: s.done,
                                      dep := s.pendDep.headD 0, pendDep := s.pendDep.tail }
-      let s2 := match rootBody bodies r with
-        | some b => emit r.patch r.containing b s1
-        | none => s1
+      let s2 := bodyState bodies r s1
       addTerms s1.instrs.size s2.instrs.back? r.term s2 := by
-  simp only [layoutRoot, rootBody]
+  simp only [layoutRoot, rootBody, bodyState]
   cases r.kind with
   | code e => rfl
   | ref id => cases lookupBody bodies id <;> rfl
@@ -136,11 +140,10 @@ theorem layoutRoots_located : ∀ (fuel : Nat) (s : LState F), Inv s →
         · rw [s1_pending] at hq; rw [s1_jsize]; exact inv.cont q (hrest q hq)
         · rw [s1_pending] at hq; exact inv.ref q (hrest q hq)
       have hcont1 : r.containing < s1.jumps.size := by rw [s1_jsize]; exact inv.cont r hr_mem
-      generalize hs2 : (match rootBody bodies r with
-        | some b => emit r.patch r.containing b s1
-        | none => s1) = s2 at *
+      generalize hs2 : bodyState bodies r s1 = s2 at *
       have p12 : Pre s1 s2 := by
         rw [← hs2]
+        simp only [bodyState]
         cases rootBody bodies r with
         | none => exact .refl s1
         | some b => exact (emit_pre r.patch r.containing b s1 hcont1).1
@@ -174,7 +177,7 @@ theorem layoutRoots_located : ∀ (fuel : Nat) (s : LState F), Inv s →
       have hr_done : r ∈ Fs.done := by rw [hl', p1'.done, s1_done]; simp
       have hr_loc : RootLocated bodies Fs.toProg r := by
         refine ⟨hlab r hr_done, fun b hb => ?_⟩
-        have hs2b : s2 = emit r.patch r.containing b s1 := by rw [← hs2, hb]
+        have hs2b : s2 = emit r.patch r.containing b s1 := by rw [← hs2]; simp only [bodyState, hb]
         obtain ⟨_, z2⟩ := emit_pre r.patch r.containing b s1 hcont1
         rw [← hs2b] at z2
         have hpos := len_pos b
